@@ -118,8 +118,11 @@ def build(ctx):
         "neighbour block starts after the reference cell (cell (0,0,0) is first in the slab)": "neighbour_pos = slab['frac_pos'][n_uc:]" in src and "uc_pos = slab['frac_pos'][:n_uc]" in src,
         "bond criterion d > 1e-3 and d < r_i + r_j + tolerance (both loops)": src.count("d > 0.001 and d < covalent_radii[") == 2,
     }
-    for k, ok in checks.items():
-        ctx.ground("crystal.Crystal.unit_cell_connectivity/convention/" + k.split(" ")[0] + "_" + str(abs(hash(k)) % 1000), ok, tag="F", clause=k, witness=k, fn=f_ucc)
+    def conv_fallback():
+        r_ = fixed_native_cases()
+        return None if not r_["reproduced"] else {"input": r_["native_inputs"], "observed": r_["observed"]}
+    for lab_, (k, ok) in zip(("incell_edges", "modulo_n_uc", "neighbour_edges", "edge_cell", "neighbour_block", "bond_criterion"), checks.items()):
+        ctx.pattern("crystal.Crystal.unit_cell_connectivity/convention/" + lab_, ok, clause=k, fn=f_ucc, fallback=conv_fallback)
     # slab orders cells by |h|,|k|,|l| so that (0,0,0) is the first block: G over the fixed bounds used
     from chmpy.util.num import cartesian_product
     h = np.arange(-1, 2)
@@ -138,14 +141,31 @@ def build(ctx):
             return {"native_inputs": info, "reproduced": False, "observed": "labelling succeeded"}
         except Exception as e:  # noqa
             return {"native_inputs": info, "reproduced": True, "observed": repr(e)[:200]}
-    r = ctx.ground("crystal.Crystal.symmetry_unique_molecules/labelling.shapes", safe, tag="F",
-                   clause="atom lists of two molecules are compared with a shape-safe equality (numpy == raises or broadcasts for lists of different length)",
-                   detail=[ast.unparse(n) for n in cmp_nodes], fn=f_sum)
-    if not safe:
-        r.native = cocrystal_replay()
+    def shapes_fallback():
+        r_ = cocrystal_replay()
+        return None if not r_["reproduced"] else {"input": r_["native_inputs"], "observed": r_["observed"]}
+    ctx.pattern("crystal.Crystal.symmetry_unique_molecules/labelling.shapes", safe,
+                clause="atom lists of two molecules are compared with a shape-safe equality (numpy == raises or broadcasts for lists of different length)",
+                detail=[ast.unparse(n) for n in cmp_nodes], fn=f_sum, fallback=shapes_fallback)
 
     unwrap_instances(ctx, mod)
     bounded(ctx)
+
+
+def fixed_native_cases():
+    rng = np.random.default_rng(11)
+    for setting, kinds, sc in (((14, "b1"), ["water_hho"], False), ((19, ""), ["water", "h2co_hhoc"], True), ((2, ""), ["methanol"], True), ((61, ""), ["h2co_hhoc"], False),
+                               ((14, "b1"), ["water_hho", "hcn"], True), ((148, "R"), ["h2co_hhoc"], True)):
+        c, info = molecular_crystal(rng, setting[0], setting[1], kinds, scatter=sc)
+        if c is None:
+            continue
+        try:
+            f = molecule_contract(c, info)
+        except Exception as e:  # noqa
+            f = {"input": info, "observed": repr(e)[:200]}
+        if f:
+            return {"native_inputs": f["input"], "reproduced": True, "observed": f["observed"]}
+    return {"native_inputs": "six generated molecular crystals", "reproduced": False, "observed": "all clauses hold natively"}
 
 
 def unwrap_instances(ctx, mod):
